@@ -521,7 +521,8 @@ func dependencyKind(t types.Type) string {
 	case M + "/authenticode.SizeReaderAt":
 		return "image reader"
 	}
-	return ""
+	// an interface of the library's own that shows only part of such a dependency
+	return narrowedDependency(t)
 }
 
 // classifyErrCall classifies the call whose error result guards a terminator.
